@@ -132,7 +132,7 @@ Proof.
   intros Esr Hcl.
   destruct (start_response_ok lower _ _ _ _ _ Esr) as (_ & S2 & S3 & S4 & S5 & S6 & S7 & S8 & S9 & _).
   cbn [new_task t_rh t_wrote_header t_cof t_chunked t_cbw t_v11 str_of List.app] in *.
-  pose proof (start_response_no_cl lower (new_task (r_version r) false) (PStr status) hs None Hcl) as Hclen.
+  pose proof (start_response_no_cl lower (new_task (r_version r) false) (PStr status) hs None eq_refl Hcl) as Hclen.
   rewrite Esr in Hclen. cbn [fst new_task t_clen] in Hclen.
   pose proof (start_response_clean lower (new_task (r_version r) false) (PStr status) hs None) as G.
   rewrite Esr in G. cbn [fst] in G.
